@@ -113,6 +113,13 @@ ok("method on another receiver (plain path, &self helper, same impl): bound as v
    prelude="pub struct S { min: usize, cur: usize }\npub struct W { inner: S }", impl="impl S",
    expect=["let vx_h_self: &Self = &other;", "let vx_h_self: &Self = &w.inner;", "vx_h_self.min - vx_h_self.cur"])
 
+ok("&self method of ANOTHER (non-generic, inherent) type of the file, called on a field: bound with the type's name",
+   "fn trunc(&self, h: u64) -> u64 { if self.keyed { h ^ self.key } else { h } }",
+   "fn query(&self, col: &K, h: u64) -> u64 { col.trunc(h) + self.inner.trunc(h + 1) + self.min as u64 }",
+   ["{ let s = S { min: 1, cur: 0, inner: K { keyed: true, key: 5 } }; s.F(&K { keyed: false, key: 9 }, 8) }"],
+   prelude="pub struct K { keyed: bool, key: u64 }\npub struct S { min: usize, cur: usize, inner: K }\nimpl K { HELPER }", impl="impl S", hcont="impl K",
+   expect=["let vx_h_self: &K = &col;", "let vx_h_self: &K = &self.inner;"])
+
 ok("trailing `return e;` becomes the tail",
    "fn last(a: u32) -> u32 { let b = a + 1; return b * 2; }",
    "fn caller(x: u32) -> u32 { last(x) }",
@@ -138,6 +145,17 @@ ok("parameter named like its own argument needs no renaming",
    "fn caller(data: u32) -> u32 { inc(data) * inc(data + 1) }",
    ["F(1)", "F(7)"], expect=["let data: u32 = data;"], reject=["vx_h_data"])
 
+ok("same-named functions of other types / modules and same-named methods of other things are left alone",
+   "fn new(a: u32) -> S { let v: Vec<u32> = Vec::new(); S { min: a as usize + v.len(), cur: 0 } }",
+   "fn make(a: u32) -> (S, usize) { let b = Box::new(a); let s = Self::new(*b); let t = std::rc::Rc::new(1usize); (s, *t) }",
+   ["{ let (s, t) = S::F(3); (s.min, s.cur, t) }"],
+   prelude="pub struct S { min: usize, cur: usize }", impl="impl S", expect=["Box::new(a)", "Rc::new(1usize)", "Vec::new()"])
+
+ok("free helper `len`; `.len()` calls in caller and body are methods of something else",
+   "fn len(v: &[u32]) -> usize { v.len() + 1 }",
+   "fn caller(v: &[u32]) -> usize { v.len() * 100 + len(v) }",
+   ["F(&[1, 2])"], expect=["v.len() * 100", "v.len() + 1"])
+
 ok("nested calls of the helper in its own arguments",
    "fn inc(a: u32) -> u32 { a + 1 }",
    "fn caller(x: u32) -> u32 { inc(inc(inc(x))) }",
@@ -158,6 +176,17 @@ ok("`?` in the body: `place = h(..)?;` and `h(..)?;` statement forms, inside con
    "fn caller(mut src: Vec<u32>, n: usize) -> Result<P, String> { let mut p = P::default(); if n > 0 { p.a = rd(&mut src, n)?; for _ in 0..2 { rd(&mut src, 1)?; } } p.b = rd(&mut src, 1)?; Ok(p) }",
    ["F(vec![1,2,3,4,5,6,7], 2)", "F(vec![1,2,3], 2)", "F(vec![1,2,3], 0)", "F(vec![], 0)", "F(vec![1,2,3,4], 2)"],
    prelude="#[derive(Debug, Default)] pub struct P { a: Vec<u32>, b: Vec<u32> }")
+
+ok("`?` in the body, call sites inside `if let`, `while`, labelled loop and match-arm blocks of statement-level control flow",
+   "fn parse(s: &str) -> Result<u32, String> { let v: u32 = s.parse().map_err(|_| String::from(\"bad\"))?; Ok(v + 1) }",
+   "fn caller(a: Option<&str>, b: &str, k: u32) -> Result<u32, String> { let mut t = 0; if let Some(x) = a { let v = parse(x)?; t += v; } "
+   "match k { 0 => { t += 1; } 1 | 2 => { let w = parse(b)?; t += w; } _ => {} } let mut i = 0; 'outer: while i < k { i += 1; if i == 4 { let z = parse(b)?; t += z; break 'outer; } } Ok(t) }",
+   ['F(Some("1"), "5", 0)', 'F(Some("x"), "5", 0)', 'F(None, "y", 1)', 'F(None, "7", 2)', 'F(None, "q", 9)', 'F(None, "q", 3)'])
+
+ok("`?` in the body: compound assignment `place += h(..)?;`",
+   "fn wr(out: &mut Vec<u8>, v: &[u8]) -> Result<usize, String> { if v.len() > 3 { Err(String::from(\"long\"))?; } out.extend_from_slice(v); Ok(v.len()) }",
+   "fn caller(a: &[u8], b: &[u8]) -> Result<(usize, Vec<u8>), String> { let mut out = Vec::new(); let mut n = 1; n += wr(&mut out, a)?; n <<= wr(&mut out, b)?; Ok((n, out)) }",
+   ["F(&[1], &[2, 3])", "F(&[1, 2, 3, 4], &[2])", "F(&[1], &[2, 3, 4, 5])"])
 
 ok("`?` in the body, tail is not Ok(..): becomes (TAIL)?",
    "fn two(a: &str) -> Result<u32, std::num::ParseIntError> { let x: u32 = a.parse()?; a.repeat(2).parse::<u32>().map(|v| v + x) }",
@@ -211,20 +240,26 @@ NO = [
      "fn f(&self, v: &[S]) -> usize { v[0].room() }", "not a plain path"),
     ("&mut self helper on another receiver", "fn bump(&mut self) { self.a += 1; }", "impl S", "impl S",
      "fn f(&mut self, o: &mut S) { o.bump(); }", "only a `&self` helper"),
-    ("other receiver, helper in a different impl block of the type", "fn room(&self) -> usize { self.a }", "impl S", "impl Tr for S",
-     "fn f(&self, o: &S) -> usize { o.room() }", "own impl block"),
+    ("other receiver, helper in a generic impl of another type", "fn room(&self) -> usize { self.a }", "impl<T> G<T>", "impl S",
+     "fn f(&self, o: &G<u8>) -> usize { o.room() }", "own impl block"),
+    ("other receiver, helper of another type mentions Self", "fn room(&self) -> usize { Self::base() + self.a }", "impl K", "impl S",
+     "fn f(&self, o: &K) -> usize { o.room() }", "own impl block"),
+    ("other receiver, helper in a trait impl of another type", "fn room(&self) -> usize { self.a }", "impl Tr for K", "impl S",
+     "fn f(&self, o: &K) -> usize { o.room() }", "own impl block"),
     ("self.h() but helper belongs to another type", "fn room(&self) -> usize { self.a }", "impl T", "impl S",
      "fn f(&self) -> usize { self.room() }", "not a method of the calling item's type"),
     ("plain call but helper is an associated fn", "fn room(a: usize) -> usize { a }", "impl S", "impl S",
-     "fn f(&self) -> usize { room(1) }", "associated function"),
+     "fn f(&self) -> usize { room(1) }", "no call"),
     ("Self::h but helper is free", "fn room(a: usize) -> usize { a }", None, "impl S",
-     "fn f(&self) -> usize { Self::room(1) }", "free function"),
+     "fn f(&self) -> usize { Self::room(1) }", "no call"),
     ("module path call", "fn room(a: usize) -> usize { a }", None, None,
-     "fn f() -> usize { util::room(1) }", "free function"),
+     "fn f() -> usize { util::room(1) }", "no call"),
+    ("self:: path call", "fn room(a: usize) -> usize { a }", None, None,
+     "fn f() -> usize { self::room(1) }", "free function"),
     ("long path call", "fn room(a: usize) -> usize { a }", "impl S", None,
      "fn f() -> usize { crate::S::room(1) }", "longer than"),
     ("Type::h names another type", "fn room(a: usize) -> usize { a }", "impl S", "impl S",
-     "fn f() -> usize { T::room(1) }", "does not name the helper's type"),
+     "fn f() -> usize { T::room(1) }", "no call"),
     ("method through a path (UFCS)", "fn room(&self) -> usize { self.a }", "impl S", "impl S",
      "fn f(&self) -> usize { Self::room(self) }", "called through a path"),
     ("function value, not a call", "fn room(a: usize) -> usize { a }", None, None,
@@ -267,6 +302,10 @@ NO = [
      "fn f(a: &str) -> Result<u32, String> { let v = g(a).map_err(|e| e.to_string())?; Ok(v) }", "same constructor and error type"),
     ("? with a different result alias", "fn g(a: &str) -> io::Result<u32> { let v = rd(a)?; Ok(v) }", None, None,
      "fn f(a: &str) -> Result<u32> { let v = g(a)?; Ok(v) }", "same constructor and error type"),
+    ("? helper, comparison statement is not an assignment", "fn g(a: &str) -> Result<u32, String> { let v = rd(a)?; Ok(v) }", None, None,
+     "fn f(a: &str, x: u32) -> Result<u32, String> { x <= g(a)?; Ok(x) }", "not of the form"),
+    ("? helper, assignment to an indexed place", "fn g(a: &str) -> Result<u32, String> { let v = rd(a)?; Ok(v) }", None, None,
+     "fn f(a: &str, x: &mut [u32]) -> Result<u32, String> { x[next()] = g(a)?; Ok(1) }", "not of the form"),
     ("? helper, call result used in an expression", "fn g(a: &str) -> Result<u32, String> { let v = rd(a)?; Ok(v) }", None, None,
      "fn f(a: &str) -> Result<u32, String> { let v = g(a)? + 1; Ok(v) }", "not of the form"),
     ("? helper, call not followed by ? and not the tail", "fn g(a: &str) -> Result<u32, String> { let v = rd(a)?; Ok(v) }", None, None,
@@ -279,10 +318,16 @@ NO = [
      "fn f(a: &str) -> Result<u32, String> { let h = spawn(async move { let v = g(a)?; Ok(v) }); h.join() }", "closure"),
     ("? helper called inside an expression block", "fn g(a: &str) -> Result<u32, String> { let v = rd(a)?; Ok(v) }", None, None,
      "fn f(a: &str) -> Result<u32, String> { let w = { let v = g(a)?; v + 1 }; Ok(w) }", "closure"),
+    ("? helper called inside a match that is an expression", "fn g(a: &str) -> Result<u32, String> { let v = rd(a)?; Ok(v) }", None, None,
+     "fn f(a: &str, k: u32) -> Result<u32, String> { let w = match k { 0 => { let v = g(a)?; v } _ => 1 }; Ok(w) }", "closure"),
+    ("? helper called inside a block passed as argument", "fn g(a: &str) -> Result<u32, String> { let v = rd(a)?; Ok(v) }", None, None,
+     "fn f(a: &str) -> Result<u32, String> { let w = run(|| { let v = g(a)?; Ok(v) }); w }", "closure"),
     ("? helper with let-else", "fn g(a: &str) -> Result<Option<u32>, String> { let v = rd(a)?; Ok(Some(v)) }", None, None,
      "fn f(a: &str) -> Result<u32, String> { let Some(v) = g(a)? else { return Ok(0) }; Ok(v) }", "not of the form"),
     ("? helper without tail", "fn g(a: &str) -> Result<u32, String> { let v = rd(a)?; loop { } }", None, None,
      "fn f(a: &str) -> Result<u32, String> { let v = g(a)?; Ok(v) }", ""),
+    ("macro that may return", "fn g(a: u32) -> Result<u32, String> { if a > 3 { bail!(\"big\"); } Ok(a) }", None, None,
+     "fn f(a: u32) -> u32 { match g(a) { Ok(v) => v, Err(_) => 0 } }", "may `return`"),
     ("recursion", "fn g(a: u32) -> u32 { if a == 0 { 0 } else { g(a - 1) } }", None, None,
      "fn f() -> u32 { g(3) }", "recursion"),
     ("async helper not awaited", "async fn g(a: u32) -> u32 { a }", None, None,
@@ -331,10 +376,20 @@ def run_ok(only, show):
         except ah.CannotInline as e:
             check(False, "OK[%s]: refused: %s" % (c["name"], e))
             continue
+        marked = out
+        out = ah.strip_marks(out)
+        gen = ah.generated_token_indices(marked)
+        mst = ah.sig(ah.lex(marked))
+        check(all(mst[k].text not in ("{", "}") or True for k in gen) and len(gen) > 0, "OK[%s]: no generated-token marks" % c["name"])
+        # every brace the rule added is marked: the unmarked `{`/`}` are those of the caller plus those of the helper body
+        n_unmarked = sum(1 for k, t in enumerate(mst) if t.text in "{}" and k not in gen)
+        n_expected = sum(1 for t in ah.sig(ah.lex(c["caller"])) if t.text in "{}") + ah.occurrences(c["caller"], h) * sum(1 for t in ah.sig(ah.lex(h.body)) if t.text in "{}")
+        if True:
+            check(n_unmarked == n_expected, "OK[%s]: unmarked braces %d, expected %d" % (c["name"], n_unmarked, n_expected))
         if show:
             print("---", c["name"], "\n", out, "\n", log)
-        n_calls = ah.count_calls(c["caller"], h.name)
-        check(not ah.mentions(out, h.name), "OK[%s]: helper still mentioned: %s" % (c["name"], out))
+        n_calls = ah.occurrences(c["caller"], h)
+        check(ah.occurrences(out, h) == 0, "OK[%s]: helper still mentioned: %s" % (c["name"], out))
         check(any(k.startswith("R9h inline %s at %d call site(s)" % (h.name, n_calls)) for k in log), "OK[%s]: log %r (calls=%d)" % (c["name"], log, n_calls))
         nrm = lambda s: re.sub(r"\s+", " ", s)
         for e in c["expect"]:
@@ -355,6 +410,8 @@ def run_ok(only, show):
                 items = "%s {\n pub %s\n pub %s\n}" % (c["impl"], c["caller"], inl)
                 if c["hcont"] == "same":
                     items = "%s {\n %s\n pub %s\n pub %s\n}" % (c["impl"], c["helper"], c["caller"], inl)
+                elif "HELPER" in c["prelude"]:
+                    pass
                 else:
                     items = c["helper"] + "\n" + items
             else:
@@ -363,7 +420,7 @@ def run_ok(only, show):
                 a = re.sub(r"\bF\(", cname + "(", call)
                 b = re.sub(r"\bF\(", cname + "_inl(", call)
                 body.append("    { let a = format!(\"{:?}\", %s); let b = format!(\"{:?}\", %s); if a != b { println!(\"DIFF case %d `%s`: {} vs {}\", a, b); } else { println!(\"same case %d: {}\", a); } }" % (a, b, idx, c["name"].replace('"', "'").replace("{", "(").replace("}", ")"), idx))
-            progs.append("#[allow(unused, unused_parens, clippy::all)]\nmod case%d {\n%s\n%s\npub fn run() {\n%s\n}\n}\n" % (idx, c["prelude"], items, "\n".join(body)))
+            progs.append("#[allow(unused, unused_parens, clippy::all)]\nmod case%d {\n%s\n%s\npub fn run() {\n%s\n}\n}\n" % (idx, c["prelude"].replace("HELPER", c["helper"]), items, "\n".join(body)))
     return progs
 
 
@@ -441,6 +498,22 @@ mod tests {
     bad = "fn top(&self, v: Vec<usize>) -> usize { v.into_iter().map(Self::h0).sum() }"
     out = ah.inline_item(d, "src/lib.rs", "impl S", bad, ["h0"], log, info, "k")
     check(out == bad and info.get("inline_failed") and "inlined" not in info, "inline_item: failure leaves text unchanged: %r" % info)
+    # driver policy: a helper with a loop is inlined only if that loop is a loop of the item's baseline text (up to renaming of locals)
+    base = "fn run(&self, xs: &[u32]) -> u32 { let mut acc = 0; let mut i = 0; while i < xs.len() && xs[i] != 0 { acc += xs[i]; i += 1; } acc + self.a as u32 }"
+    cur = "fn run(&self, xs: &[u32]) -> u32 { let acc = Self::sum_prefix(xs); acc + self.a as u32 }"
+    moved = ah.parse_helper("fn sum_prefix(xs: &[u32]) -> u32 { let mut total = 0; let mut k = 0; while k < xs.len() && xs[k] != 0 { total += xs[k]; k += 1; } total }", "impl S", "impl S")
+    rewritten = ah.parse_helper("fn sum_prefix(xs: &[u32]) -> u32 { let mut total = 0; for k in 0..xs.len() { if xs[k] == 0 { break; } total += xs[k]; } total }", "impl S", "impl S")
+    changed = ah.parse_helper("fn sum_prefix(xs: &[u32]) -> u32 { let mut total = 0; let mut k = 0; while k < xs.len() && xs[k] != 1 { total += xs[k]; k += 1; } total }", "impl S", "impl S")
+    method_changed = ah.parse_helper("fn sum_prefix(xs: &[u32]) -> u32 { let mut total = 0; let mut k = 0; while k < xs.iter().len() && xs[k] != 0 { total += xs[k]; k += 1; } total }", "impl S", "impl S")
+    check(ah.loops_fit_baseline(moved, base) is None, "loop moved verbatim (locals renamed) fits the baseline")
+    check(ah.loops_fit_baseline(rewritten, base) is not None, "restructured loop does not fit the baseline")
+    check(ah.loops_fit_baseline(changed, base) is not None, "loop with a changed literal does not fit the baseline")
+    check(ah.loops_fit_baseline(method_changed, base) is not None, "loop with a changed callee does not fit the baseline")
+    param_renamed = ah.parse_helper("fn sum_prefix(vals: &[u32]) -> u32 { let mut total = 0; let mut k = 0; while k < vals.len() && vals[k] != 0 { total += vals[k]; k += 1; } total }", "impl S", "impl S")
+    check(ah.loops_fit_baseline(param_renamed, base) is None and ah.loops_fit_baseline.needs_context, "loop over a parameter that is named differently in the baseline: fits, but needs the bindings in front of it")
+    check(ah.loops_fit_baseline(moved, base) is None and not ah.loops_fit_baseline.needs_context, "loop over an identically named parameter needs no extra context")
+    check(ah.loops_fit_baseline(moved, None) is not None, "no baseline: a helper with a loop is refused")
+    check(ah.loops_fit_baseline(ah.parse_helper("fn h(a: u32) -> u32 { a + 1 }"), None) is None, "no loop: nothing to check")
     import shutil
     shutil.rmtree(d)
 
